@@ -556,6 +556,23 @@ def build(interp_globals):
     def pymodel_eq(a, b):
         return pymodel.py_eq(a, b)
 
+    @model
+    def m_PyObject_RichCompareBool(a, b, op):
+        # Py_LT 0, Py_LE 1, Py_EQ 2, Py_NE 3, Py_GT 4, Py_GE 5; identity implies equality for EQ / NE (as in CPython)
+        a, b = topy(a), topy(b)
+        import operator as _op
+
+        def run():
+            if op == 2:
+                return True if a is b else bool(pymodel.py_eq(a, b))
+            if op == 3:
+                return False if a is b else not bool(pymodel.py_eq(a, b))
+            return bool({0: _op.lt, 1: _op.le, 4: _op.gt, 5: _op.ge}[op](a, b))
+        r = pycall(run)
+        if r is NULL:
+            return -1
+        return 1 if r else 0
+
     api["__pyeq__"] = lambda interp, a, b: pymodel_eq(a, b)
 
     @model
